@@ -265,27 +265,3 @@ fn str_slice_no_panic_4() {
 fn str_slice_no_panic_6() {
     str_slice_harness::<6>()
 }
-
-/// C12: error_expected builds a ParseError located at the context's position (zero-width span), naming the file.
-/// bounded(1 or 2 expected kinds).  The message text is not checked.
-#[kani::proof]
-#[kani::unwind(6)]
-fn error_expected_shape() {
-    let input: [u8; 2] = kani::any();
-    let pos = any_pos();
-    let mut ctx: Ctx = LRContext::new(pos);
-    ctx.set_span(any_span());
-    let expected: [u8; 2] = kani::any();
-    let n: usize = kani::any();
-    kani::assume(n == 1 || n == 2);
-    let e = crate::error::error_expected(&input[..], "f", &ctx, &expected[..n]);
-    match &e {
-        crate::Error::ParseError(pe) => {
-            let sp = pe.span.unwrap();
-            assert!(sp.start == pos && sp.end == pos, "C12: error not located at the current position");
-            assert!(pe.file.is_some());
-        }
-        _ => panic!("C12: not a parse error"),
-    }
-    std::mem::forget(e);
-}
